@@ -85,6 +85,10 @@ func (s *Sched) SetStrategy(st Strategy) { s.strat = st }
 // Yield is the hook body: park the calling actor until the scheduler releases it.
 func Yield(site string, who int) {
 	bindExplicit(who)
+	if holdsLock() {
+		return
+	}
+	Progress.Add(1)
 	raceDisable()
 	s := cur.Load()
 	if s != nil {
@@ -100,6 +104,7 @@ func Yield(site string, who int) {
 func (s *Sched) Quiesce() {
 	raceDisable()
 	synctest.Wait()
+	Progress.Add(1)
 	for {
 		select {
 		case r := <-s.regCh:
